@@ -1786,9 +1786,9 @@ Proof.
       assert (Hg : store_get idx sub (n_srv (w_s w0)) = Some v) by (unfold store_get; rewrite Hst0; auto).
       rewrite <- Hsty0 in Hfu1.
       destruct mode as [| |caps].
-      * pose proof (sdo_upload_spec FUEL w0 idx sub odt v Hwf0 Hm Hg Hv) as H. rewrite Hf0 in H.
+      * pose proof (sdo_upload_spec FUEL w0 idx sub (od_get_type odt sub) v Hwf0 Hm Hg Hv) as H. rewrite Hf0 in H.
         specialize (H I Hfu1 Hfu2).
-        destruct (sdo_upload net_step FUEL w0 idx sub odt) as [w1 r]. destruct H as (Hwf1 & _ & Hok1 & Hcl1).
+        destruct (sdo_upload net_step FUEL w0 idx sub (od_get_type odt sub)) as [w1 r]. destruct H as (Hwf1 & _ & Hok1 & Hcl1).
         destruct (Hcl1 eq_refl) as [[out ->] Hf1]. destruct (Hok1 out eq_refl) as (-> & A1 & A2 & _).
         eexists _, _. split; [reflexivity|]. cbn [w_s obs_result res_val]. rewrite Harm by auto. rewrite Hsty0.
         split; [reflexivity|]. split; [auto|]. split; [auto|]. rewrite A1, A2, Hst0, Hv0. auto.
